@@ -475,6 +475,11 @@ func (e *symEnv) eval(v ssa.Value) *term {
 		return tConst("nil")
 	}
 	if t, ok := e.memo[v]; ok {
+		if t.K == "tuple" && len(t.A) > 0 {
+			if _, isTuple := v.Type().(*types.Tuple); !isTuple {
+				return t.A[0] // a single-result call first evaluated for its effects
+			}
+		}
 		return t
 	}
 	if e.busy[v] {
